@@ -64,6 +64,21 @@ CLAIMED["C15"] = dict(
     technique="Lean 4 proof (reachability invariant of mark/compact/renumber) + structural correspondence + circuit scans",
 )
 
+CLAIMED["C03"] = dict(
+    text="Lean theorems, each for EVERY width n >= 1 and all operand values, against exact integer arithmetic: unsigned and signed "
+         "+ and - (result exact unless the overflow flag is set; flag <=> exact result not representable), unary - (panics exactly "
+         "on MIN), unsigned * (array multiplier = full product; flag <=> product >= 2^n), < and > (unsigned, signed), == / !=, and "
+         "every cast (target width; congruent to the source value mod 2^k; no panic). PARTIAL: signed *, / and % (unsigned, signed), "
+         "<< / >> and the multiplication-by-literal rewrite are stated (C03_*_Statement) but not yet proved. All operators, all "
+         "types, {var op var, var op const, const op var} and all casts are additionally checked by behavioural correspondence "
+         "(compiled one-line programs vs the Lean Arith model) and against an independent Python big-integer oracle: all 2^16 "
+         "operand pairs for u8/i8 arithmetic, boundary-directed and random operands for wider types.",
+    design_ref="DESIGN.md §6 C03",
+    note="trusted: Lean kernel; axioms propext/Classical.choice/Quot.sound; Model/Arith.lean is a value-level model of the wiring in "
+         "circuit.rs:1047-1248 / compile.rs:838-1103 tied by behavioural correspondence (not structural); the Python oracle",
+    technique="Lean 4 proof (ripple/row invariants, all widths) + behavioural correspondence + exhaustive 8-bit tables",
+)
+
 NOT_YET = "not claimed yet: model/proof for this property is still being built in this session (see DESIGN.md §10 order of work)"
 
 
